@@ -1,10 +1,10 @@
 /-
 C09 — property theorem for the background path: `pruneMemSegments` with a Keep that can fail.
 -/
-import ArvVerif.Proofs.C09_Prune
+import ArvVerif.Proofs.C09_Write
 namespace ArvVerif.C09
 
-open ArvVerif.C08 (Seg FileNode Flush Store SegWF)
+open ArvVerif.C08 (Seg FileNode Ptr Flush Store SegWF WF)
 
 variable {max : Nat} {hash : Bytes → C08.Loc}
 
@@ -15,9 +15,7 @@ Keep grew by acknowledged blocks only. A full segment whose write was acknowledg
 position and length (its snapshot is in Keep, so the goroutine may later swap in the stored segment —
 C08's `settle`, content-preserving by `C08_flush_invisible_settle`); one whose write failed is only
 marked and stays in memory until the next flush writes it again.
-`_partial`: this is the prune step on its own; that the whole `Write` loop around it (C08's, with
-this step in place of the all-ok one) keeps files well-formed under failures has no theorem — the
-differential check runs it on every case with a background failure script. -/
+`_partial`: this is the prune step on its own; the whole `Write` is `C09_background_failure_keeps_data` below. -/
 theorem C09_background_failure_keeps_data_partial (hinj : Function.Injective hash) (segs : List Seg) (idx : Nat)
     (k : Keep) (hk : KeepOK hash k) (hwf : ∀ s ∈ segs, SegWF max hash k.store s) :
     KeepOK hash (pruneSegsK hash max segs idx k).2 ∧ KeepStep hash k (pruneSegsK hash max segs idx k).2 ∧
@@ -29,6 +27,32 @@ theorem C09_background_failure_keeps_data_partial (hinj : Function.Injective has
   refine ⟨h1, h2, h3, ?_, h5, h6⟩
   unfold C08.absSegs
   rw [List.flatMap_def, List.flatMap_def, h4]
+
+/-- **A handle write with a Keep that can fail** (`filehandle.Write` = `filenode.Write` followed, once
+the file lock is free, by the background goroutines — the model's `implK.write`): for every script of
+Keep answers, every well-formed file, every (stale) pointer and data of any length, the write never
+panics or hangs, consumes all the data, and once the background writes have settled the file is
+well-formed over the new Keep and holds exactly the plain `pwrite` result; every other handle's pointer
+stays valid; Keep grew by acknowledged blocks only. A failing background write therefore costs
+nothing but memory: its segment stays buffered until the next flush writes it again. -/
+theorem C09_background_failure_keeps_data (hinj : Function.Injective hash) (hmax : 1 ≤ max) {k : Keep}
+    (hk : KeepOK hash k) {fn : FileNode} {ptr : Ptr} (hwf : WF max hash k.store fn) (hrep : 0 ≤ fn.repacked)
+    (hptr : C08.PtrOK fn ptr) (p : Bytes) :
+    ∃ w, writeK hash max k fn ptr p = WriteResK.done w p.length ∧ KeepOK hash w.k ∧ KeepStep hash k w.k ∧
+      WF max hash w.k.store (C08.settle hash w.fn) ∧
+      C08.abs w.k.store (C08.settle hash w.fn) = C08.specWrite (C08.abs k.store fn) ptr.off p ∧
+      w.ptr.off = ptr.off + p.length ∧ C08.PtrOK (C08.settle hash w.fn) w.ptr ∧
+      (∀ q, C08.PtrOK fn q → C08.PtrOK (C08.settle hash w.fn) q) := by
+  obtain ⟨w, h1, h2, h3, h4, _, h6, h7, h8, h9⟩ := writeK_spec hinj hmax hk hwf hrep hptr p
+  obtain ⟨s1, s2, _, _, s5⟩ := C08.settle_spec h4
+  exact ⟨w, h1, h2, h3, s1, by rw [s2, h8], h7, s5 _ h6, fun q hq => s5 q (h9 q hq)⟩
+
+/-- non-vacuity of the hypotheses: a file of a stored and a mem segment (`max = 2`) over a
+Keep holding its block, written through a stale pointer while the first background write fails -/
+example : ∃ w n, writeK id 2 ⟨C08.Store.put id (fun _ => none) [1, 2, 3, 4], [], [Outcome.fail], Outcome.ok, 0, 0⟩
+    ⟨[Seg.stored [1, 2, 3, 4] 4 1 2, Seg.mem [9, 8] Flush.none], 4, 3⟩ ⟨1, 17, 42, -1⟩ [7, 7, 7] =
+    WriteResK.done w n ∧ n = 3 ∧ w.k.fails = 1 := by
+  refine ⟨_, _, rfl, ?_, ?_⟩ <;> decide
 
 /-- non-vacuity: two full segments (max = 2), the first write fails, the second succeeds -/
 example :
